@@ -425,6 +425,17 @@ func c14StepCheck(x *cpuCtx, c *cpuCase) (sig, what string) {
 		}
 		// the authoritative register copies are what alpha extracts
 		pre := alpha(raw)
+		// the tracer reads through the same bus as the CPU: it may look at the bytes of the instruction it
+		// describes and nothing else (a read beyond them can hit a hole in the memory map or an I/O register)
+		{
+			ilen := ref65816.Length(c.Op, pre.P&ref65816.FM != 0, pre.P&ref65816.FX != 0)
+			for _, a := range m.Mem().Reads {
+				off := uint16(a) - pre.PC
+				if a>>16 != uint32(pre.K) || int(off) >= ilen {
+					return "unexplained:trace-reads-beyond-instruction:" + tag, fmt.Sprintf("%s read $%06x while rendering the %d-byte instruction at %02x:%04x | case %s", rd.name, a, ilen, pre.K, pre.PC, c.String())
+				}
+			}
+		}
 		if kind, w := checkTraceLine(line, pre, x.img.Peek, rd.wantRegs); kind != "" {
 			sig := fmt.Sprintf("unexplained:trace-%s:%s", kind, tag)
 			if kind == "branch-target" && e.Mode == ref65816.Rel && c.Opnd[0] >= 0x80 {
@@ -452,6 +463,9 @@ func c14RunCheck(w *c12World, rr c12Run) (sig, what string) {
 		log = l.buf.String()
 	case *rcWriter:
 		log = l.buf.String()
+	}
+	if w.logLen1 <= len(log) {
+		log = log[:w.logLen1] // the scenario ends with a second RunUntil call (C12); its lines are not judged here
 	}
 	lines := strings.Split(strings.TrimRight(log, "\n"), "\n")
 	if log == "" {
